@@ -206,8 +206,14 @@ def w_alarm(a, provider):
 
 
 def observe_times(comp):
+    """Alarms(comp).times; for components that have the .alarms property the same through it (they must agree)"""
     from icalendar import Alarms
-    return S.observe(lambda: [S.c_time(x.trigger) for x in Alarms(comp).times], lambda v: v)
+    o = S.observe(lambda: [S.c_time(x.trigger) for x in Alarms(comp).times], lambda v: v)
+    if hasattr(type(comp), "alarms"):
+        o2 = S.observe(lambda: [S.c_time(x.trigger) for x in comp.alarms.times], lambda v: v)
+        if o2 != o:
+            return ["err", "component.alarms differs from Alarms(component): %r" % (o2,)]
+    return o
 
 
 def observe_triggers(al):
